@@ -58,6 +58,8 @@ class World:
         self.log = []              # ("open",) ("open-fail",) ("close",) ("x", idx, apdu, outcome)
         self.seq = 0
         self.connect_failures = 0
+        self.opens_seen = 0        # getDongle calls so far
+        self.fail_open_at = None   # ordinal (in opens_seen) of one getDongle call that is to fail
         self.inject = None         # callable(world, idx, apdu) -> None | fault tuple
         self.dead = False          # a crash froze the world: nothing has any effect
         self.max_exchanges = max_exchanges
@@ -69,6 +71,11 @@ class World:
     # replacement for ledgerblue.comm.getDongle / commTCP.getDongle
     def get_dongle(self, *a, **k):
         if self.dead:
+            raise CommException("No dongle found")
+        self.opens_seen += 1
+        if self.fail_open_at is not None and self.opens_seen == self.fail_open_at:
+            self.fail_open_at = None
+            self.log.append(("open-fail",))
             raise CommException("No dongle found")
         if self.connect_failures > 0:
             self.connect_failures -= 1
